@@ -21,6 +21,8 @@ ANCHORS = [
 
 CONVS = ['cf1d', 'shoc_simple', 'shoc_standard', 'ugrid', 'cf2d']
 CASE_MECH = 'positive-attr-case-sensitive'
+BOUNDS_MECH = 'depth-bounds-variable-breaks-ocean-floor'
+TOPOLOGY_MECH = 'shoc-simple-topology-keyerror-standard-name'
 
 META = {
     'rule': ('generated datasets of CF 1-D, CF 2-D, SHOC simple, SHOC standard and UGRID with 1-2 depth coordinates '
@@ -78,7 +80,7 @@ def build(rng, conv):
         kw = dict(maxn=3)
     model = make(rng, conv, **kw)
     recognisable = chance(rng, 0.8)
-    depthgen.dress(model, rng, conv, recognisable=recognisable, same_dim=0.15)
+    depthgen.dress(model, rng, conv, recognisable=recognisable, same_dim=0.15, bounds_p=0.12)
     return model
 
 
@@ -124,7 +126,7 @@ def one_dataset(obs, rng, conv, spec):
         if route == 'ems':
             obs.cls('route:ems')
             with quiet_warnings() as log:
-                out = obs.call('dataset.ems.ocean_floor', ems.ocean_floor, mech=lambda exc: exc_mech(chosen))
+                out = obs.call('dataset.ems.ocean_floor', ems.ocean_floor, mech=lambda exc: exc_mech(axes, exc))
         else:
             coords = [a['name'] if chance(rng, 0.6) else ds[a['name']] for a in chosen]
             kw = {}
@@ -148,14 +150,20 @@ def one_dataset(obs, rng, conv, spec):
             from emsarray.operations import depth
             with quiet_warnings() as log:
                 out = obs.call('operations.depth.ocean_floor', depth.ocean_floor, ds, coords,
-                               mech=lambda exc: exc_mech(chosen), **kw)
+                               mech=lambda exc: exc_mech(axes, exc), **kw)
         if isinstance(out, Failed):
             continue
         check_floor(obs, model, ds, snap, before, out, chosen, route, ns, conv)
     # the input must still describe the same model for the next property run on it (cheap sanity, not a C12 clause)
 
 
-def exc_mech(axes):
+def exc_mech(axes, exc=None):
+    """Mechanism key of an exception out of ocean_floor, by error signature / input class (never by case number)."""
+    text = str(exc)
+    if isinstance(exc, ValueError) and 'not found in array dimensions' in text and "'bnd2'" in text \
+            and any(a['bounds_style'] == 'var' for a in axes):
+        # the bounds variable of a depth coordinate was reduced together with an earlier group and has lost the depth dimension
+        return BOUNDS_MECH
     return CASE_MECH if any(depthgen.case_variant_down(a['attr']) for a in axes) else None
 
 
@@ -257,7 +265,9 @@ def check_floor(obs, model, ds, snap, before, out, chosen, route, ns, conv):
                    lambda: {'dim': dim, 'was': size, 'now': out.sizes.get(dim)}, mech='other-dimension-changed')
     # ---- geometry ---------------------------------------------------------------------------------------------
     with quiet_warnings():
-        after = obs.call('polygons (output)', lambda: polygons_wkb(out.ems.polygons))
+        after = obs.call('polygons (output)', lambda: polygons_wkb(out.ems.polygons),
+                         mech=lambda exc: TOPOLOGY_MECH if conv == 'shoc_simple' and isinstance(exc, KeyError)
+                         and exc.args == ('standard_name',) else 'geometry-unusable')
     if not isinstance(after, Failed):
         obs.expect(after == before, 'polygons of the reduced dataset differ from the input polygons',
                    lambda: {'n_before': len(before), 'n_after': len(after)}, mech='geometry-changed')
